@@ -382,6 +382,12 @@ MISC = [
 ]
 
 
+# inputs that reproduce RECORDED FINDINGS (known_findings.json) and are rejected outright: run by C01 only
+FINDING_ENTRIES = [
+    ("freeze.metadata-attachment", "define i32 @f(i32 %a) {\n\t%r = freeze i32 %a, !x !0\n\tret i32 %r\n}\n\n!0 = !{}\n", ["%r = freeze i32 %a, !x !0"]),
+]
+
+
 def comdat_entries():
     """entity kind x name spelling (plain, all-digit quoted, quoted with a space, unnamed) x comdat written explicitly / implicitly: the printer's short
     form ` comdat` and the parser's reading of it must agree on what the implicit name is"""
